@@ -4,7 +4,46 @@
 
 use bpaf_verif::c20corpus::dump_case;
 
+/// `c20dump --print <hex case>`: run the first line of the case and let bpaf print the outcome
+/// itself (`ParseFailure::print_message`, what `OptionParser::run` does): the parent compares
+/// what reaches the (piped) stdout and stderr across feature sets
+fn print_mode(hex: &str) {
+    let bytes: Vec<u8> = (0..hex.len() / 2)
+        .map(|k| u8::from_str_radix(&hex[2 * k..2 * k + 2], 16).unwrap_or(0))
+        .collect();
+    let case = bpaf_verif::c20corpus::decode(&bytes);
+    bpaf_verif::outcome::install_panic_hook();
+    let parser = match bpaf_verif::outcome::guarded(|| bpaf_verif::build::build_level(&case.level)) {
+        Ok(p) => p,
+        Err(_) => {
+            println!("BUILD-PANIC");
+            return;
+        }
+    };
+    let (argv, named) = match case.lines.first() {
+        Some(l) => l,
+        None => return,
+    };
+    let cfg = bpaf_verif::outcome::RunCfg {
+        name: if *named { Some("app") } else { None },
+        comp: None,
+    };
+    match bpaf_verif::outcome::run_raw(&parser, argv, &cfg) {
+        Ok(Ok(_)) => println!("VALUE"),
+        Ok(Err(f)) => {
+            if bpaf_verif::outcome::guarded(|| f.print_message(100)).is_err() {
+                println!("PRINT-PANIC");
+            }
+        }
+        Err(_) => println!("PANIC"),
+    }
+}
+
 fn main() {
+    if std::env::args().nth(1).as_deref() == Some("--print") {
+        print_mode(&std::env::args().nth(2).unwrap_or_default());
+        return;
+    }
     let path = std::env::args().nth(1).expect("corpus file");
     let text = std::fs::read_to_string(path).expect("read corpus");
     bpaf_verif::outcome::install_panic_hook();
